@@ -125,7 +125,45 @@ func doCompile(in []byte) (out string) {
 			}
 		}
 	}
-	return fmt.Sprintf("%s %sX %sX %sX %s %s", errS, hex.EncodeToString(buf.Bytes()), dump(sm.SourceLinesToTarget), dump(sm.TargetLinesToSource), genSame, lookups(sm))
+	// the same bytes again, twice, in this process and straight away (an editor resends text that did not change):
+	// same text, same tables
+	repeat := "same"
+	for k := 2; k <= 3 && repeat == "same"; k++ {
+		tk, errk := compiler.ParseString(string(in))
+		if (errk == nil) != (err == nil) {
+			repeat = "diff:" + hex.EncodeToString([]byte(fmt.Sprintf("compilation #%d of the same bytes: error %v, the first gave %v", k, errk, err)))
+			break
+		}
+		var bk bytes.Buffer
+		smk, cerrk := tk.Compose(&bk)
+		switch {
+		case cerrk != nil:
+			repeat = "diff:" + hex.EncodeToString([]byte(fmt.Sprintf("compilation #%d of the same bytes fails in Compose: %v", k, cerrk)))
+		case !bytes.Equal(bk.Bytes(), buf.Bytes()):
+			repeat = "diff:" + hex.EncodeToString([]byte(fmt.Sprintf("compilation #%d of the same bytes gives different code: %s", k, firstDiff(bk.String(), buf.String()))))
+		case dump(smk.SourceLinesToTarget) != dump(sm.SourceLinesToTarget) || dump(smk.TargetLinesToSource) != dump(sm.TargetLinesToSource):
+			repeat = "diff:" + hex.EncodeToString([]byte(fmt.Sprintf("compilation #%d of the same bytes gives a different position map", k)))
+		}
+	}
+	return fmt.Sprintf("%s %sX %sX %sX %s %s %s", errS, hex.EncodeToString(buf.Bytes()), dump(sm.SourceLinesToTarget), dump(sm.TargetLinesToSource), genSame, lookups(sm), repeat)
+}
+
+func firstDiff(a, b string) string {
+	i := 0
+	for i < len(a) && i < len(b) && a[i] == b[i] {
+		i++
+	}
+	lo := i - 60
+	if lo < 0 {
+		lo = 0
+	}
+	hi := func(s string) int {
+		if i+60 < len(s) {
+			return i + 60
+		}
+		return len(s)
+	}
+	return fmt.Sprintf("%q vs %q", a[lo:hi(a)], b[lo:hi(b)])
 }
 
 // lookups: the two lookup functions the language server uses must answer every key of their table with the
